@@ -1129,6 +1129,10 @@ class Dynamo0p3ColourTrans(ColourTrans):
         if node.ancestor(OMPDirective):
             raise TransformationError("Cannot have a loop over colours "
                                       "within an OpenMP parallel region.")
+        # The same holds for an OpenACC parallel or kernels region.
+        if node.ancestor((ACCParallelDirective, ACCKernelsDirective)):
+            raise TransformationError("Cannot have a loop over colours "
+                                      "within an OpenACC parallel region.")
 
         super().apply(node, options=options)
 
